@@ -26,15 +26,16 @@ CONSTANTS ModuleCacheKeepsCtx, BytecodePatch312, NoFilenameCompile, BuiltinBefor
 
 VARIABLES stA, stB, stC, turn, pidx, hist
 
+Uni   == JsonDeserialize(IOEnv.C12_PROGS)
+Progs == Uni.progs
+Prog(i) == Progs[i]
+
 A == INSTANCE AyEvalNS WITH st <- stA
 B == INSTANCE AyEvalNS WITH st <- stB
 C == INSTANCE AyEvalNS WITH st <- stC, ModuleCacheKeepsCtx <- TRUE, BytecodePatch312 <- TRUE, NoFilenameCompile <- TRUE,
                             BuiltinBeforeCfg <- FALSE, SymbolsLeak <- FALSE
 
 vars == <<stA, stB, stC, turn, pidx, hist>>
-
-Uni   == JsonDeserialize(IOEnv.C12_PROGS)
-Progs == Uni.progs
 
 Tables(p) == UNION {[S -> 1..Vers] : S \in SUBSET A!ToSetS(p.slots)}
 Files == IF FilePerBuild \/ Len(hist) = 0 THEN BOOLEAN ELSE {hist[1].file}
@@ -46,7 +47,7 @@ StartA ==
     /\ turn = "A" /\ stA.pc = "idle" /\ Len(hist) < MaxBuilds
     /\ \E i \in (IF pidx = 0 THEN 1..Len(Progs) ELSE {pidx}) :
          \E c \in Tables(Progs[i]), s \in Tables(Progs[i]), f \in Files :
-            /\ A!Build(Progs[i], c, s, f)
+            /\ A!Build(i, c, s, f)
             /\ pidx' = i
     /\ UNCHANGED <<stB, stC, turn, hist>>
 
@@ -73,7 +74,7 @@ RunC == turn = "C" /\ stC.pc \in {"exec", "eval"} /\ C!Run /\ UNCHANGED <<stA, s
 
 \* compact form of an outcome for the harness: resolutions as <<name, source, version>>
 Compact(o) == [kind |-> o.kind, cause |-> o.cause, arg |-> o.arg,
-               res |-> [i \in 1..Len(o.log) |-> <<o.log[i].name, o.log[i].val.src, o.log[i].val.ver>>]]
+               res |-> [i \in 1..Len(o.log) |-> <<o.log[i].name, o.log[i].val.src, o.log[i].val.ver, o.log[i].via>>]]
 
 DoneC == /\ turn = "C" /\ (stC.pc = "done" \/ ~WithAsIs)
          /\ hist' = Append(hist, [cfg |-> cur.cfg, syms |-> cur.syms, file |-> cur.file,
